@@ -179,7 +179,16 @@ fn equivalent(a: &Outcome, b: &Outcome) -> bool {
 }
 
 pub fn check_vector(unit: &Value, family: &str, p: &bpaf::OptionParser<Val>, t: &Table, argv: &[Tok], ctx: &mut Ctx) {
-    let seg = match segment(t, argv) {
+    // a single-dash item of several letters one of which is not declared is a plain word to the
+    // parser (`-éx`): for cutting the line it stands for a word, the permutations move the item
+    let seg_argv: Vec<Tok> = argv
+        .iter()
+        .map(|tk| match tk.utf8() {
+            Some(s) if s.starts_with('-') && !s.starts_with("--") && s.chars().count() > 2 && !s.contains('=') && s.chars().skip(1).any(|c| !t.flag_shorts.contains(&c) && !t.arg_shorts.contains(&c)) && !s.chars().skip(1).take(1).any(|c| t.arg_shorts.contains(&c)) => Tok::s("w"),
+            _ => tk.clone(),
+        })
+        .collect();
+    let seg = match segment(t, &seg_argv) {
         Some(s) => s,
         None => {
             ctx.s.skipped += 1;
@@ -253,6 +262,62 @@ pub fn check_vector(unit: &Value, family: &str, p: &bpaf::OptionParser<Val>, t: 
     }
 }
 
+// ------------------------------------------------------------------------------------------
+// one name declared twice (an `adjacent` argument and a switch / a plain argument of the same
+// name, C02's definitions): the occurrences feed different fields, so they may be permuted
+// ------------------------------------------------------------------------------------------
+fn run_shared_name(kind: usize, unit: &Value, only: Option<&[Tok]>, ctx: &mut Ctx) {
+    let d = crate::checks::c02::Dual { kind, len: 0 };
+    let p = match build_checked(&crate::checks::c02::dual_opts(&d)) {
+        Ok(p) => p,
+        Err(_) => return,
+    };
+    // blocks with the field they feed; blocks of one field keep their relative order
+    let blocks: Vec<(usize, Vec<&str>)> = if kind == 1 {
+        vec![(0, vec!["--name=a"]), (1, vec!["--name"]), (2, vec!["-v"])]
+    } else {
+        vec![(0, vec!["--name=a"]), (0, vec!["-n=b"]), (1, vec!["--name", "x"]), (1, vec!["-n", "x"]), (2, vec!["-v"])]
+    };
+    let n = blocks.len();
+    let mut orders: Vec<Vec<usize>> = vec![];
+    crate::explore::permutations(n, &mut |perm| {
+        let keeps = (0..n).all(|a| (a + 1..n).all(|b| blocks[a].0 != blocks[b].0 || perm.iter().position(|x| *x == a) < perm.iter().position(|x| *x == b)));
+        if keeps {
+            orders.push(perm.to_vec());
+        }
+    });
+    let render = |o: &[usize]| -> Vec<Tok> { o.iter().flat_map(|i| blocks[*i].1.iter().map(|s| Tok::s(s))).collect() };
+    let base_argv = render(&(0..n).collect::<Vec<_>>());
+    let base = run(&p, &base_argv);
+    ctx.s.evaluations += 1;
+    for o in &orders {
+        let argv = render(o);
+        if argv == base_argv {
+            continue;
+        }
+        if let Some(x) = only {
+            if x != argv.as_slice() {
+                continue;
+            }
+        }
+        ctx.begin_case(|| json!({"base": base_argv, "perm": argv}));
+        ctx.s.evaluations += 1;
+        ctx.s.transitions += 1;
+        let r = run(&p, &argv);
+        if equivalent(&base, &r) {
+            ctx.count("shared-name-permutations");
+            ctx.s.nontrivial += 1;
+            continue;
+        }
+        let mut sig = BTreeMap::new();
+        sig.insert("family".to_string(), format!("shared-name-{}", kind));
+        sig.insert("base".to_string(), base.class().to_string());
+        sig.insert("permuted".to_string(), r.class().to_string());
+        ctx.violation(Violation { property: "C03".into(), rule: "permuting-whole-named-occurrences-keeps-the-outcome".into(), sig, unit: unit.clone(), case: json!({"base": base_argv, "perm": argv}), expected: format!("same outcome as the base order: {}", base.brief()), observed: r.brief(), size: argv.len() * 1000 });
+    }
+    ctx.s.states += 1;
+}
+
 impl Check for C03 {
     fn id(&self) -> &'static str {
         "C03"
@@ -292,6 +357,12 @@ impl Check for C03 {
             }
             out.push(serde_json::to_value(Unit { opts: l.to_opts(), len: tier.pick(3, 4), family: "conventional".into(), alpha }).unwrap());
         }
+        // multi-byte short flags; blocks mixing them with undeclared letters are words
+        for tail in [fam::pos(&[PosKind::Many]), fam::pos(&[PosKind::Opt])] {
+            let mk = |c: char, kind: Kind| Named { names: Names::short(c), kind, hidden: false, ty: Ty::Os, adjacent: false, guarded: false };
+            let l = fam::leaf(vec![mk('é', Kind::Switch), mk('a', Kind::Switch), mk('ж', Kind::Count)], tail);
+            out.push(serde_json::to_value(Unit { opts: l.to_opts(), len: tier.pick(4, 5), family: "non-ascii-shorts".into(), alpha: toks(&["-é", "-a", "-ж", "-éx", "-жжx", "w", "-z"]) }).unwrap());
+        }
         // help and version requests among the named items of a level that configures a version
         for mut l in fam::conventional(1, &[Tail::None, fam::pos(&[PosKind::Opt])], seed + 1) {
             l.version = Some("1.2.3".into());
@@ -302,9 +373,16 @@ impl Check for C03 {
         for (o, alpha) in alt_groups() {
             out.push(serde_json::to_value(Unit { opts: o, len: tier.pick(4, 5), family: "alt-groups".into(), alpha }).unwrap());
         }
+        for kind in 0..3 {
+            out.push(json!({"shared_name": kind}));
+        }
         out
     }
     fn run_unit(&self, unit: &Value, ctx: &mut Ctx) {
+        if let Some(k) = unit.get("shared_name").and_then(|k| k.as_u64()) {
+            run_shared_name(k as usize, unit, None, ctx);
+            return;
+        }
         let u: Unit = serde_json::from_value(unit.clone()).unwrap();
         let p = match build_checked(&u.opts) {
             Ok(p) => p,
@@ -312,7 +390,11 @@ impl Check for C03 {
         };
         let t = c03_table(&u);
         let mut alpha = if u.alpha.is_empty() { shape_alphabet(&u.opts) } else { u.alpha.clone() };
-        if u.alpha.is_empty() {
+        if u.alpha.is_empty() && u.len > 3 {
+            // undeclared items among the occurrences are the conventional family's business
+            alpha.retain(|t| t.0 != b"-z");
+        }
+        if u.alpha.is_empty() && u.len <= 3 {
             // an undeclared dash-digit item (looks like a negative number)
             alpha.push(Tok::s("-5"));
         }
@@ -324,6 +406,11 @@ impl Check for C03 {
         });
     }
     fn replay(&self, unit: &Value, case: &Value, ctx: &mut Ctx) {
+        if let Some(k) = unit.get("shared_name").and_then(|k| k.as_u64()) {
+            let want: Vec<Tok> = serde_json::from_value(case["perm"].clone()).unwrap_or_default();
+            run_shared_name(k as usize, unit, Some(&want), ctx);
+            return;
+        }
         let u: Unit = serde_json::from_value(unit.clone()).unwrap();
         let base: Vec<Tok> = serde_json::from_value(case["base"].clone()).unwrap_or_default();
         let want: Option<Vec<Tok>> = serde_json::from_value(case["perm"].clone()).ok();
